@@ -157,6 +157,9 @@ var commitCmd = &cobra.Command{
 				return err
 			}
 		} else {
+			if client.Head.Commit == nil {
+				return ErrInvalidHEAD
+			}
 			// compare last commit with index
 			isDiff, err := isCommitNecessary(client.RootGoitPath, client.Idx, client.Head.Commit)
 			if err != nil {
